@@ -904,8 +904,14 @@ func (c *SpecCtx) callExpr(x *ast.CallExpr, sn *SpecNode) (Value, types.Type) {
 			found := false
 			func() {
 				defer func() { recover() }()
-				if _, _, ok := e.cellByName(id2.Name); ok {
+				if cv, _, ok := e.cellByName(id2.Name); ok {
 					found = true
+					if lp, isLocal := cv.(*LocalPtr); isLocal {
+						// a local that exists only on some of the merged paths is not in scope here
+						if _, have := c.st.locals[lp.Cell]; !have {
+							found = false
+						}
+					}
 				}
 			}()
 			if found {
